@@ -120,6 +120,34 @@ func craftedCases() []craftedCase {
 		}
 	}
 	out = append(out, craftedCase{m: inter, tuples: it, rq: fga.Req{Obj: "doc:" + placeholder, Rel: "viewer", User: "user:x"}})
+	// a wildcard tuple that carries the condition of the sibling (non-wildcard) restriction: accepted by
+	// ValidateTupleForWrite/Read, honoured by Check and the classic engine
+	sib := &fga.Model{Types: []*fga.TypeDef{{Name: "user"},
+		{Name: "doc", Rels: []*fga.RelDef{
+			{Name: "viewer", Rewrite: this(), Restrs: []fga.Restr{{Typ: "user", Cond: "c1"}, {Typ: "user", Wild: true}}},
+		}}},
+		Conds: []*fga.CondDef{{Name: "c1", Param: "x", Op: "lt", Const: 10}}}
+	out = append(out, craftedCase{m: sib, tuples: []fga.Tuple{
+		{Obj: "doc:1", Rel: "viewer", User: "user:*", Cond: "c1", Ctx: []fga.KV{{K: "x", V: 5}}},
+		{Obj: "doc:2", Rel: "viewer", User: "user:*"},
+	}, rq: fga.Req{Obj: "doc:" + placeholder, Rel: "viewer", User: "user:y"}})
+	// the flag of an earlier edge must survive later unflagged edges: group#member is an intersection,
+	// doc#viewer only names the userset
+	acc := &fga.Model{Types: []*fga.TypeDef{{Name: "user"},
+		{Name: "group", Rels: []*fga.RelDef{
+			{Name: "allowed", Rewrite: this(), Restrs: []fga.Restr{u}},
+			{Name: "member", Rewrite: op("inter", this(), cu("allowed")), Restrs: []fga.Restr{u}},
+		}},
+		{Name: "doc", Rels: []*fga.RelDef{
+			{Name: "parent", Rewrite: this(), Restrs: []fga.Restr{{Typ: "doc"}}},
+			{Name: "viewer", Rewrite: op("union", this(), ttu("parent", "viewer")), Restrs: []fga.Restr{{Typ: "group", Rel: "member"}}},
+		}}}}
+	out = append(out, craftedCase{m: acc, tuples: []fga.Tuple{
+		{Obj: "group:g", Rel: "member", User: "user:x"}, {Obj: "group:h", Rel: "member", User: "user:x"},
+		{Obj: "group:h", Rel: "allowed", User: "user:x"},
+		{Obj: "doc:1", Rel: "viewer", User: "group:g#member"}, {Obj: "doc:2", Rel: "viewer", User: "group:h#member"},
+		{Obj: "doc:3", Rel: "parent", User: "doc:1"}, {Obj: "doc:4", Rel: "parent", User: "doc:2"},
+	}, rq: fga.Req{Obj: "doc:" + placeholder, Rel: "viewer", User: "user:x"}})
 	// the same object through a union-only path and through an exclusion whose subtracted operand has no
 	// path to the subject type (weighted engine: exclusionHandler with ExcludedEdge == nil)
 	dup := &fga.Model{Types: []*fga.TypeDef{{Name: "user"}, {Name: "employee"},
@@ -212,6 +240,7 @@ func gen(r *hx.Rand, n int, tier string, emit func(string), st *hx.Stats) {
 			st.Inc("crafted")
 		}
 	}
+	multiThis := 0 // quick tier: at most one model of the shape that makes the pipeline hang (L4)
 	for i := 0; i < n; {
 		c := r.Fork()
 		var m *fga.Model
@@ -226,8 +255,11 @@ func gen(r *hx.Rand, n int, tier string, emit func(string), st *hx.Stats) {
 		}
 		// a relation whose rewrite names `this` more than once (only expressible through the JSON API) makes the
 		// streaming pipeline hang when the relation is recursive (reported to C21): keep a small share of them
-		if maxThis(m) > 1 && !c.Chance(1, 10) {
-			continue
+		if maxThis(m) > 1 {
+			if tier != "thorough" && multiThis >= 1 || !c.Chance(1, 10) {
+				continue
+			}
+			multiThis++
 		}
 		base := fga.GenTuples(c, m, 4+c.Intn(18))
 		strat := m.Stratified()
